@@ -24,6 +24,12 @@
 //!   ["ack"]                                  what RETI from a KEY interrupt does in CoreRuntime: clear ISR bit 2
 //!                                            and timer.key_irq_latched
 //!   ["iclr"]                                 firmware write clearing ISR bit 2 only
+//!   ["bad", kind, x]                         an operation the keyboard rejects: press/release of a matrix code
+//!                                            outside the matrix, read/write of a port that is not a keyboard register
+//!
+//! cfg["kbd_mode"] = ["iq7000"] applies the IQ-7000 device set-up of sc62015/core/src/device.rs
+//! (disable_fifo_mirroring + set_keyi_on_any_press(true) + set_raw_kil(true)), ["raw_kil"] only set_raw_kil(true);
+//! every observation carries KeyboardMatrix::irq_count().
 //!
 //! A case with `"cpu": true` runs on a `CoreRuntime` instead (see run_cpu_case): press/release/scan/inject/consume
 //! act on `rt.keyboard`, and ["x", code_addr, [bytes], {regs}, {imem pre-writes}, [regs out], [imem out]] executes
@@ -63,6 +69,51 @@ fn configure(kb: &mut KeyboardMatrix, cfg: &Value) {
         kb.set_press_threshold(v as u8);
     }
     kb.set_repeat_enabled(get_bool(cfg, "repeat_enabled", true));
+    // device configuration (what DeviceModel::configure_runtime applies to rt.keyboard, sc62015/core/src/device.rs)
+    let (iq, raw) = kbd_mode(cfg);
+    if iq {
+        kb.disable_fifo_mirroring();
+        kb.set_keyi_on_any_press(true);
+        kb.set_raw_kil(true);
+    } else if raw {
+        kb.set_raw_kil(true);
+    }
+}
+
+/// cfg["kbd_mode"]: list of flags -- "iq7000" (the IQ-7000 device set-up) / "raw_kil".
+fn kbd_mode(cfg: &Value) -> (bool, bool) {
+    let mut iq = false;
+    let mut raw = false;
+    if let Some(l) = cfg.get("kbd_mode").and_then(|v| v.as_array()) {
+        for f in l {
+            match f.as_str().unwrap_or("") {
+                "iq7000" => iq = true,
+                "raw_kil" => raw = true,
+                _ => {}
+            }
+        }
+    }
+    (iq, raw)
+}
+
+/// An operation the keyboard has to reject: a matrix code outside the matrix, a port that is not a keyboard
+/// register.  Returns whether the crate reported the rejection (where it reports anything).
+fn bad_op(kb: &mut KeyboardMatrix, mem: &mut MemoryImage, kind: &str, x: u64) -> bool {
+    match kind {
+        "port-read" => kb.handle_read(0xF3 + (x % 10) as u32, mem).is_none(),
+        "port-write" => {
+            let off = if x & 16 != 0 { 0xE0 + (x % 16) as u32 } else { 0xF3 + (x % 10) as u32 };
+            !kb.handle_write(off, ((x * 37) & 0xFF) as u8, mem)
+        }
+        "release" | "inject" => {
+            kb.release_matrix_code(128 + (x % 128) as u8, mem);
+            true
+        }
+        _ => {
+            kb.press_matrix_code(128 + (x % 128) as u8, mem);
+            true
+        }
+    }
 }
 
 fn run_case(case: &Value) -> Value {
@@ -86,6 +137,8 @@ fn run_case(case: &Value) -> Value {
         "fifo": kb.fifo_snapshot(), "isr": mem.read_internal_byte(ISR).unwrap_or(0),
         "irq_enabled": timer.keyboard_irq_enabled(),
         "latched": timer.key_irq_latched,
+        "wake_on_press": kbd_mode(&cfg).0, "tick_events": !kbd_mode(&cfg).0, "raw_kil": kbd_mode(&cfg).0 || kbd_mode(&cfg).1,
+        "irq_count": kb.irq_count(),
     });
 
     let mut cycle: u64 = 0;
@@ -156,6 +209,11 @@ fn run_case(case: &Value) -> Value {
                 ret = json!({"n": n});
             }
             "consume" => kb.consume_pending_events(),
+            "bad" => {
+                let kind = a.get(1).and_then(|v| v.as_str()).unwrap_or("");
+                let rejected = bad_op(&mut kb, &mut mem, kind, arg(2));
+                ret = json!({"rejected": rejected});
+            }
             "irq" => timer.set_keyboard_irq_enabled(argb(1)),
             "ack" => {
                 let isr = mem.read_internal_byte(ISR).unwrap_or(0);
@@ -177,6 +235,7 @@ fn run_case(case: &Value) -> Value {
             "isr": mem.read_internal_byte(ISR).unwrap_or(0),
             "irq_enabled": timer.keyboard_irq_enabled(),
             "latched": timer.key_irq_latched,
+            "irq_count": kb.irq_count(),
         }));
     }
     json!({"init": init, "obs": obs})
@@ -210,6 +269,9 @@ fn run_cpu_case(case: &Value) -> Value {
             "active_high": snap.columns_active_high, "capacity": snap.fifo.len(),
             "repeat_enabled": repeat_enabled,
             "fifo": kb.fifo_snapshot(), "isr": Value::Null, "irq_enabled": Value::Null,
+            "wake_on_press": kbd_mode(&cfg).0, "tick_events": !kbd_mode(&cfg).0,
+            "raw_kil": kbd_mode(&cfg).0 || kbd_mode(&cfg).1,
+            "irq_count": kb.irq_count(),
         })
     };
     let mut obs: Vec<Value> = Vec::new();
@@ -240,6 +302,11 @@ fn run_cpu_case(case: &Value) -> Value {
                 ret = json!({"n": n});
             }
             "consume" => rt.keyboard.as_mut().unwrap().consume_pending_events(),
+            "bad" => {
+                let kind = a.get(1).and_then(|v| v.as_str()).unwrap_or("");
+                let rejected = bad_op(rt.keyboard.as_mut().unwrap(), &mut rt.memory, kind, arg(2));
+                ret = json!({"rejected": rejected});
+            }
             "x" => {
                 let code_addr = arg(1) as usize;
                 let code: Vec<u8> = a
@@ -299,6 +366,7 @@ fn run_cpu_case(case: &Value) -> Value {
             "isr": Value::Null,
             "irq_enabled": rt.timer.keyboard_irq_enabled(),
             "latched": rt.timer.key_irq_latched,
+            "irq_count": kb.irq_count(),
         }));
     }
     json!({"init": init, "obs": obs})
